@@ -194,6 +194,45 @@ pub fn c16_type_case(bytes: &[u8], stats: &mut Stats, counting: bool) -> Verdict
                 other => return Some((format!("type-{fmt}-roundtrip"), format!("`{text}` -> `{s}` -> {other:?}"))),
             }
         }
+        // types derived through the public constructors *after* the base type has been rendered and serialized
+        // round-trip as well, and render as the model says
+        let flip = t.with_nullability(!t.nullable());
+        let mut flipped = ty.clone();
+        flipped.nulls[0] = !flipped.nulls[0];
+        let mut derived: Vec<(&str, Type, String)> = vec![("with_nullability", flip, flipped.render())];
+        if ty.nulls.len() < 30 {
+            for outer in [true, false] {
+                let mut m = ty.clone();
+                m.nulls.insert(0, outer);
+                derived.push(("new_list_type", Type::new_list_type(t.clone(), outer), m.render()));
+            }
+        }
+        if let Some(inner) = t.as_list() {
+            let mut m = ty.clone();
+            m.nulls.remove(0);
+            let text_inner = m.render();
+            m.nulls[0] = !m.nulls[0];
+            derived.push(("as_list+with_nullability", inner.with_nullability(!inner.nullable()), m.render()));
+            derived.push(("as_list", inner, text_inner));
+        }
+        for (how, d, want_text) in derived {
+            let shown = d.to_string();
+            if shown != want_text {
+                return Some((format!("derived-type-display-differs|{how}"), format!("`{text}` --{how}--> displayed as `{shown}`, expected `{want_text}`")));
+            }
+            match Type::parse(&shown) {
+                Ok(d2) if d2 == d && d2.nullable() == d.nullable() => {}
+                other => return Some((format!("derived-type-parse-display-roundtrip|{how}"), format!("`{text}` --{how}--> `{shown}` -> {other:?}"))),
+            }
+            let js = match serde_json::to_string(&d) {
+                Ok(s) => s,
+                Err(e) => return Some((format!("derived-type-json-serialize-failed|{how}"), e.to_string())),
+            };
+            match serde_json::from_str::<Type>(&js) {
+                Ok(d2) if d2 == d && d2.to_string() == want_text => {}
+                other => return Some((format!("derived-type-json-roundtrip|{how}"), format!("`{text}` --{how}--> `{js}` -> {other:?}"))),
+            }
+        }
         None
     });
     match r {
@@ -253,8 +292,29 @@ pub fn c16_ir_case(bytes: &[u8], stats: &mut Stats, counting: bool, cfg: &GenCon
             Err(e) => return Some(("indexed-json-deserialize-failed".into(), format!("{e}\n{s}"))),
         }
         // a compiled query rebuilt from its own IR is the same compiled query
+        // ... and, built from an IR that has already been rendered and serialized above (so anything the values cache
+        // about their own text is filled in), it still serializes to something that reads back as the same query
         match IndexedQuery::try_from(iq.ir_query.clone()) {
-            Ok(b) if &b == iq => {}
+            Ok(b) if &b == iq => {
+                let s2 = match ron::to_string(&b) {
+                    Ok(s) => s,
+                    Err(e) => return Some(("rebuilt-indexed-ron-serialize-failed".into(), e.to_string())),
+                };
+                match ron::from_str::<IndexedQuery>(&s2) {
+                    Ok(b2) if &b2 == iq => {}
+                    Ok(_) => return Some(("rebuilt-indexed-ron-roundtrip-changed".into(), s2)),
+                    Err(e) => return Some(("rebuilt-indexed-ron-deserialize-failed".into(), format!("{e}\n{s2}"))),
+                }
+                let s2 = match serde_json::to_string(&b) {
+                    Ok(s) => s,
+                    Err(e) => return Some(("rebuilt-indexed-json-serialize-failed".into(), e.to_string())),
+                };
+                match serde_json::from_str::<IndexedQuery>(&s2) {
+                    Ok(b2) if &b2 == iq => {}
+                    Ok(_) => return Some(("rebuilt-indexed-json-roundtrip-changed".into(), s2)),
+                    Err(e) => return Some(("rebuilt-indexed-json-deserialize-failed".into(), format!("{e}\n{s2}"))),
+                }
+            }
             other => return Some(("indexed-rebuild-differs".into(), format!("{other:?}"))),
         }
         None
